@@ -7,7 +7,7 @@ from .. import harness as H
 
 
 def run_sweep(ctx, sub, argsets, pid, flavour="asan", stdin_data=None, sanitizer_is_violation=False,
-              timeout=7200, binary=None):
+              timeout=7200, binary=None, crash_is_inconclusive=True):
     """argsets: list of argument lists, one process each (run in parallel). [] means one run without args."""
     rep = ctx.report
     if binary is None:
@@ -60,6 +60,6 @@ def run_sweep(ctx, sub, argsets, pid, flavour="asan", stdin_data=None, sanitizer
                 rep.violation(key, "vh_sweep %s %s:\n%s" % (sub, args, txt))
         if rc != 0:
             rep.count("sweep_%s_nonzero_exit" % sub)
-            if not sanitizer_is_violation or not sf:
+            if crash_is_inconclusive and (not sanitizer_is_violation or not sf):
                 rep.inconclusive.append("vh_sweep %s %s exited %d: %s" % (sub, args, rc, (err or "")[-400:]))
     return results
